@@ -25,6 +25,7 @@ PRELUDE = ('import vmod; import vmod2;\n'
            'function fnew(v) return vmod is begin return vmod(v); end;\n'
            'function fkeep(o:vmod) return integer is begin k = o; return k.id(); end;\n'
            'function fonce(s) return vmod is begin if s.count() > 1 then raise efail; end if; return vmod(20); end;\n'
+           'function ffail(o:vmod) return integer is begin loc = vmod(50); lt = tab(1, o); raise efail; return 1; end;\n'
            'a:vmod; b:vmod; t = tab(); u = tup(); zz = 0; x = 0; e:vmod; sq = "";')
 
 
@@ -262,6 +263,35 @@ def _s_tab_failing_item(s):
     s.new()
 
 
+def _s_renew_self(s):
+    # the method replaces the object held by its own receiver variable; it returns itself: b takes over the old object
+    if s.a is None:
+        return False
+    old = s.a
+    s.a = s.new()
+    s.b = old
+
+
+def _s_renew_drop(s):
+    # as above, the returned reference is only a temporary: the old object loses its last reference when the statement ends
+    if s.a is None:
+        return False
+    s.a = s.new()
+
+
+def _s_renew_other(s):
+    if s.a is None:
+        return False
+    s.b = s.new()
+
+
+def _s_failing_callee(s):
+    # the callee holds its argument, a table with it and an object of its own when it raises
+    if s.a is None:
+        return False
+    s.new()
+
+
 def _s_failing_body(s):
     if not s.t:
         return False
@@ -307,9 +337,15 @@ STMTS = {
     "return-int": ("return 5;", _s_return_int),
     # the argument of a method removes the receiver from the table that held it: the object lives until its method has returned
     "arg-drops-receiver": ("zz = t.at(0).hold(t.delete(0).count());", _s_arg_drops_receiver),
+    # a method that stores a new object into a variable handed over as INOUT argument - also its own receiver
+    "renew-self": ("b = a.renew(a, 4);", _s_renew_self),
+    "renew-drop": ("zz = a.renew(a, 4).id();", _s_renew_drop),
+    "renew-other": ("zz = a.renew(b, 5).get();", _s_renew_other),
+    "failing-callee": ("begin zz = ffail(a); exception when others then zz = 0; end;", _s_failing_callee),
+    "failing-callee-unhandled": ("zz = ffail(a);", _s_failing_callee),
     "forall-failing-body": ("forall e in t loop zz = vmod(11).get(); raise efail; end loop;", _s_failing_body),
 }
-FAILING = {"forall-refused-temp", "forall-refused-var", "forall-failing-body"}
+FAILING = {"forall-refused-temp", "forall-refused-var", "forall-failing-body", "failing-callee-unhandled"}
 HOST = ["purgewm", "clone", "free-clone"]
 
 
